@@ -85,9 +85,10 @@ def own_rule(ctx, prog, rule, owners_key="fields"):
 def run(ctx):
     prog = mirq.Program(ctx.facts.mir())
     syn = Syn(ctx.facts.syn())
-    ctx.not_decided += ["that API iterators return exactly the index content (FromHandles skips unresolvable handles)", "content of the position index", "chronological order after protect_text (appends an existing handle)",
-                        "duplicate-free promises of ResultIter::new_sorted call sites (C01.SORTED of DESIGN.md is not built)"]
+    ctx.not_decided += ["that API iterators return exactly the index content (FromHandles skips unresolvable handles)", "content of the position index", "chronological order after protect_text (appends an existing handle)"]
     ctx.assumptions += ["all mutation of stores goes through StoreFor::insert/remove and the callbacks (established by C01.OWN and the pub(crate) visibility of the fields)"]
+
+    sorted_rule(ctx, syn)
 
     r_own = ctx.rule("C01.OWN", "index, id-map, store and position-index fields are written only by their sanctioned writers")
     n = own_rule(ctx, prog, r_own)
@@ -419,3 +420,173 @@ def run(ctx):
         if not ok:
             ctx.report(r_once, "selector|insert#%d" % nins, "AnnotationStore::selector inserts a TextSelection without being on the 'no existing handle' edge of a look-up: the same selection can be stored twice, splitting its reverse index", sel.file, t.get("line"))
     ctx.floor(r_once, nins, 2, "TextSelection insertions in selector()")
+
+
+# ---------------------------------------------------------------------- SORTED
+def sorted_rule(ctx, syn):
+    """every `ResultIter::new_sorted(x)` (the promise 'chronological order, no duplicates' that later
+    binary searches rely on) is justified by where x comes from"""
+    from synq import walk, find, unparse, strip, pat_names
+    r = ctx.rule("C01.SORTED", "every collection announced as sorted and duplicate-free comes from a source that is: a reverse-index row, a store iteration, a BTreeSet/BTreeMap, a single item, or a local vector that was sorted and then de-duplicated")
+    # reverse-index fields (by type) and substore membership vectors
+    index_fields = set()
+    member_fields = set()
+    for sname, sd in syn.structs.items():
+        for fld in sd.get("fields") or []:
+            ty = re.sub(r"\s+", "", fld["ty"]["s"])
+            if re.search(r"RelationMap<|RelationBTreeMap<", ty):
+                index_fields.add(fld["name"])
+            if sname == "AnnotationSubStore" and re.fullmatch(r"Vec<\w+Handle>", ty):
+                member_fields.add(fld["name"])
+    env = {"index_fields": index_fields, "member_fields": member_fields, "syn": syn, "fncache": {}}
+    n = 0
+    for f in syn.fns:
+        if f.body is None or not f.file.startswith("src/api"):
+            continue
+        sites = [c for c in find(f.body, "call") if unparse(c["func"]) in ("ResultIter::new_sorted",) and c["args"]]
+        if not sites:
+            continue
+        ctx.functions_analysed.add(f.qual)
+        cnt = {}
+        for c in sites:
+            n += 1
+            why, ok_ = justify(c["args"][0], f, c.get("l"), env, 0)
+            cnt[why] = cnt.get(why, 0) + 1
+            key = "%s|%s#%d" % (f.qual, why.split(":")[0], cnt[why])
+            r.hit(key, sample={"function": f.qual, "argument": unparse(c["args"][0])[:70], "justified_by": why})
+            if not ok_:
+                ctx.report(r, key, "%s announces `%s` as sorted and duplicate-free, but %s: consumers that binary-search or merge it (Handles::contains, union, intersection) give wrong answers on an unsorted collection" % (f.qual, unparse(c["args"][0])[:70], why.split(":", 1)[-1]), f.file, c.get("l"))
+    ctx.floor(r, n, 40, "new_sorted sites")
+
+
+def fn_locals(f):
+    from synq import walk, strip, pat_names
+    lets = {}
+    sorts = []
+    for nd in walk(f.body):
+        if nd.get("k") == "let" and nd.get("init") is not None:
+            for nm in pat_names(nd["pat"]):
+                lets[nm] = nd
+        if nd.get("k") == "mcall" and nd["method"] in ("sort", "sort_unstable", "dedup") and strip(nd["recv"]).get("k") == "path":
+            sorts.append((nd.get("l"), nd["method"], strip(nd["recv"])["path"][0]))
+    return lets, sorts
+
+
+def returned_exprs(f):
+    from synq import walk, strip, block_tail
+    out = []
+
+    def tails(e):
+        e = strip(e)
+        k = e.get("k")
+        if k == "blockexpr":
+            t = block_tail(e["block"])
+            if t is not None:
+                tails(t)
+        elif k == "block":
+            t = block_tail(e)
+            if t is not None:
+                tails(t)
+        elif k == "if":
+            tails({"k": "blockexpr", "block": e["then"]})
+            if e.get("else") is not None:
+                tails(e["else"])
+        elif k == "match":
+            for a in e["arms"]:
+                tails(a["body"])
+        else:
+            out.append(e)
+    tails(f.body)
+    for nd in walk(f.body):
+        if nd.get("k") == "return" and nd.get("e") is not None:
+            out.append(strip(nd["e"]))
+    return out
+
+
+def justify(arg, f, line, env, depth):
+    from synq import unparse, strip, walk, pat_names
+    a = strip(arg)
+    src = unparse(a)
+    k = a.get("k")
+    if depth > 8:
+        return "unknown:the origin of the collection could not be followed", False
+    lets, sorts = fn_locals(f)
+    if k == "call":
+        fn = unparse(a["func"])
+        if fn in ("FromHandles::new", "ResultTextSelections::new", "Box::new", "Some") and a["args"] and fn != "Some":
+            return justify(a["args"][0], f, line, env, depth + 1)
+        if fn in ("Some", "std::iter::once"):
+            return "single:one item", True
+        if fn in ("Vec::new", "Vec::with_capacity", "std::iter::empty"):
+            return "empty:empty collection", True
+        if fn.startswith("TargetIter"):
+            return "targets:it follows the order of the annotation's own target selectors (TargetIter), which is the order they were given in for a DirectionalSelector", False
+        return "unknown:`%s` is not a recognised ordered source" % src[:40], False
+    if k == "field":
+        if a["member"] in env["member_fields"]:
+            return "members:membership vector of a substore (items are appended when added, in handle order)", True
+        if a["member"] in env["index_fields"]:
+            return "index:reverse index field %s" % a["member"], True
+        return justify(a["base"], f, line, env, depth + 1) if a["member"] == "data" else ("unknown:field %s" % a["member"], False)
+    if k == "mcall":
+        m = a["method"]
+        recv = strip(a["recv"])
+        rsrc = unparse(recv)
+        if m == "flatten" and recv.get("k") == "mcall" and recv["method"] == "into_iter" and strip(recv["recv"]).get("k") == "mcall" and strip(recv["recv"])["method"] in ("get", "ok"):
+            return justify(strip(recv["recv"]), f, line, env, depth + 1)   # Option<&Vec>.into_iter().flatten(): one row
+        if m in ("iter", "annotations", "datasets", "resources", "substores", "keys", "data") and rsrc in ("self", "store", "self.store()", "self.rootstore()", "self.as_ref()"):
+            return "store:iteration over a store in handle order", True
+        if m in ("into_iter", "iter", "copied", "cloned", "map", "filter_map", "filter", "peekable", "as_ref", "unwrap", "clone", "expect", "ok", "unwrap_or_default"):
+            return justify(a["recv"], f, line, env, depth + 1)
+        if m == "get" and recv.get("k") == "field":
+            return justify(recv, f, line, env, depth + 1)
+        if m in ("iter", "annotations", "datasets", "resources", "substores", "keys", "data") and rsrc in ("self", "store", "self.store()", "self.rootstore()", "self.as_ref()"):
+            return "store:iteration over a store in handle order", True
+        # a crate-local helper: judge what it returns
+        cands = [g for g in env["syn"].fns if g.name == m and g.body is not None and not g.file.startswith("src/api") and g.file != "src/tests.rs"]
+        if len(cands) == 1:
+            g = cands[0]
+            if g.qual in env["fncache"]:
+                return env["fncache"][g.qual]
+            env["fncache"][g.qual] = ("unknown:recursive helper", False)
+            res = None
+            for e in returned_exprs(g):
+                why, ok_ = justify(e, g, None, env, depth + 1)
+                if not ok_:
+                    res = ("helper:%s() can return a collection for which %s" % (m, why.split(":", 1)[-1]), False)
+                    break
+                if res is None or why.split(":")[0] != "empty":
+                    res = ("helper(%s):%s" % (m, why), True)
+            res = res or ("unknown:%s() returns nothing recognisable" % m, False)
+            env["fncache"][g.qual] = res
+            return res
+        if m in ("flatten", "flat_map", "chain", "rev", "zip"):
+            return "unsorted:it concatenates or reorders several sequences (.%s()) without sorting" % m, False
+        return "unknown:.%s() is not a recognised ordered source" % m, False
+    if k == "path" and a["path"][-1] == "None":
+        return "empty:no collection", True
+    if k == "path" and len(a["path"]) == 1:
+        nm = a["path"][0]
+        if nm in lets:
+            nd = lets[nm]
+            tysrc = nd["pat"].get("s", "") + " " + (unparse(nd["init"]) if nd.get("init") else "")
+            if "BTreeSet" in tysrc or "BTreeMap" in tysrc:
+                return "btree:collected into a BTreeSet/BTreeMap", True
+            ss = [(l, m_) for l, m_, v in sorts if v == nm and l is not None and (line is None or l <= line)]
+            has_sort = [l for l, m_ in ss if m_.startswith("sort")]
+            has_dedup = [l for l, m_ in ss if m_ == "dedup"]
+            if has_sort and has_dedup and min(has_sort) <= max(has_dedup):
+                return "sorted:local vector sorted and then de-duplicated", True
+            if has_sort and not has_dedup:
+                return "nodedup:the local vector `%s` is sorted but never de-duplicated" % nm, False
+            if has_dedup and not has_sort:
+                return "nosort:the local vector `%s` is de-duplicated (adjacent duplicates only) but never sorted" % nm, False
+            if "TargetIter" in tysrc:
+                return "targets:it follows the order of the annotation's own target selectors (TargetIter), which is the order they were given in for a DirectionalSelector", False
+            if nd.get("init") is not None:
+                return justify(nd["init"], f, line, env, depth + 1)
+        for nd in walk(f.body):
+            if nd.get("k") == "letexpr" and nm in pat_names(nd["pat"]):
+                return justify(nd["e"], f, line, env, depth + 1)
+        return "unknown:`%s` has no visible origin" % nm, False
+    return "unknown:`%s` is not a recognised ordered source" % src[:40], False
